@@ -13,7 +13,7 @@ import time
 
 import detsched
 
-from mpservice.mpserver import Server, ServerBacklogFull, ThreadServlet, TimeoutError, Worker
+from mpservice.mpserver import AsyncServer, Server, ServerBacklogFull, ThreadServlet, TimeoutError, Worker
 from mpservice.threading import Thread
 
 MODEL = 'ledger'
@@ -67,7 +67,8 @@ def gen_case(rng: random.Random, tier: str, bias: str = ''):
     early = rng.choice([0.0, 0.02, 0.05, 0.1]) if bias != 'abandon' else rng.choice([0.03, 0.08, 0.15])
     ch = rng.choice([('random', early), ('random', early), ('sticky', 0.2, early), ('sticky', 0.05, early),
                      ('pct', 2, 600, early), ('pct', 3, 600, early)])
-    return dict(cap=cap, nworkers=nworkers, callers=callers, nreq=r, followups=1 if small else rng.choice([1, 2]),
+    return dict(kind=rng.choice(['sync', 'sync', 'async']), cap=cap, nworkers=nworkers, callers=callers, nreq=r,
+                followups=1 if small else rng.choice([1, 2]),
                 chooser=list(ch), seed=rng.randrange(1 << 30))
 
 
@@ -94,7 +95,108 @@ def run_case(case):
                 raise WorkErr(r)
             return ('y', r)
 
+    def amain_wrapper():
+        """AsyncServer: the callers are asyncio tasks of one event loop (cooperative-selector loop,
+        virtual clock), the servlet workers and the gather thread are threads as usual."""
+        import asyncio
+        import cooploop
+        cooploop.install()
+        base_threads = {ts.tid for ts in detsched.SCHED.order if not ts.done}
+        box = {}
+
+        async def amain():
+            srv = AsyncServer(ThreadServlet(W, num_threads=case['nworkers']), capacity=cap)
+            loop = asyncio.get_running_loop()
+
+            def sample(s):
+                b = srv.backlog
+                if b > st['max_backlog']:
+                    st['max_backlog'] = b
+                if b != st.get('last_backlog', 0):
+                    st['last_backlog'] = b
+                    log(('blen', b))
+
+            await srv.__aenter__()
+            detsched.SCHED.on_step.append(sample)
+
+            async def do_call(r, dur, fail, timeout, bp):
+                t0 = loop.time()
+                log(('call', r, int(bp), 0 if timeout >= FOREVER else 1))
+                try:
+                    y = await srv.call((r, dur, fail), timeout=timeout, backpressure=bp)
+                    out = ('ok', y[1] if isinstance(y, tuple) and len(y) == 2 and y[0] == 'y' else repr(y))
+                except ServerBacklogFull:
+                    out = ('full',)
+                except TimeoutError:
+                    out = ('timeout',)
+                except WorkErr as e:
+                    out = ('err', e.r)
+                except BaseException as e:  # noqa
+                    out = ('other', repr(e))
+                outcomes[r] = (out, loop.time() - t0, timeout, bp)
+                log(('outcome', r) + out)
+
+            async def caller(spec):
+                if spec['kind'] == 'call':
+                    for q in spec['reqs']:
+                        for _ in range(q['delay']):
+                            await asyncio.sleep(0)
+                        await do_call(q['r'], q['dur'], q['fail'], q['timeout'], q['bp'])
+                else:
+                    items = spec['items']
+
+                    async def data():
+                        for it in items:
+                            log(('call', it['r'], 0, 1))
+                            yield (it['r'], it['dur'], it['fail'])
+
+                    got = []
+                    endk = 'end'
+                    try:
+                        gen = srv.stream(data(), return_x=True, return_exceptions=spec['rexc'], timeout=FOREVER)
+                        async for x, y in gen:
+                            if isinstance(y, WorkErr):
+                                got.append((x[0], ('err', y.r)))
+                                log(('outcome', x[0], 'err', y.r))
+                            elif isinstance(y, tuple) and len(y) == 2 and y[0] == 'y':
+                                got.append((x[0], ('ok', y[1])))
+                                log(('outcome', x[0], 'ok', y[1]))
+                            else:
+                                got.append((x[0], ('other', repr(y))))
+                            if spec['stop_after'] is not None and len(got) == spec['stop_after']:
+                                await gen.aclose()
+                                endk = 'closed'
+                                break
+                    except WorkErr as e:
+                        endk = ('err', e.r)
+                        log(('outcome', e.r, 'err', e.r))
+                    except BaseException as e:  # noqa
+                        endk = ('other', repr(e))
+                    box.setdefault('streams', []).append((spec, got, endk))
+
+            await asyncio.gather(*[caller(spec) for spec in case['callers']])
+            box['gather_alive'] = srv._gather_thread.is_alive()
+            r = case['nreq']
+            for k in range(case['followups']):
+                await do_call(r + k, 1, False, FOREVER, False)
+            await asyncio.sleep(1000)
+            box['idle_backlog'] = srv.backlog
+            box['gather_alive2'] = srv._gather_thread.is_alive()
+            detsched.SCHED.on_step.remove(sample)
+            try:
+                await srv.__aexit__(None, None, None)
+            except BaseException as e:  # noqa
+                if isinstance(e, detsched.Abort):
+                    raise
+                box['exit_error'] = repr(e)
+
+        asyncio.run(amain())
+        box['leaked'] = [ts_.name for ts_ in detsched.SCHED.order if not ts_.done and ts_.tid not in base_threads]
+        return box
+
     def main():
+        if case.get('kind') == 'async':
+            return amain_wrapper()
         base_threads = {ts.tid for ts in detsched.SCHED.order if not ts.done}
         srv = Server(ThreadServlet(W, num_threads=case['nworkers']), capacity=cap)
         box = {}
@@ -107,7 +209,8 @@ def run_case(case):
                 st['last_backlog'] = b
                 log(('blen', b))
 
-        with srv:
+        srv.__enter__()
+        if True:
             detsched.SCHED.on_step.append(sample)
 
             def do_call(r, dur, fail, timeout, bp):
@@ -181,6 +284,12 @@ def run_case(case):
             box['idle_backlog'] = srv.backlog
             box['gather_alive2'] = srv._gather_thread.is_alive()
             detsched.SCHED.on_step.remove(sample)
+        try:
+            srv.__exit__(None, None, None)
+        except detsched.Abort:
+            raise
+        except BaseException as e:  # noqa
+            box['exit_error'] = repr(e)
         box['leaked'] = [ts_.name for ts_ in detsched.SCHED.order if not ts_.done and ts_.tid not in base_threads]
         return box
 
@@ -256,6 +365,8 @@ def run_case(case):
     # C07: server unharmed
     if not box['gather_alive'] or not box['gather_alive2']:
         mon.append(dict(prop='C07', rule='gather-dead', detail='the gather thread died'))
+    if box.get('exit_error'):
+        mon.append(dict(prop='C07', rule='exit-raised', detail=f'Server.__exit__ raised {box["exit_error"]}'))
     if box['leaked']:
         mon.append(dict(prop='C07', rule='leak-after-exit', detail=f'{box["leaked"]}'))
     return res
